@@ -19,7 +19,7 @@ FOLDERS = {'Alpha': 'A', 'Capitalization': 'C', 'Digits': 'D', 'Other': 'O', 'Ke
 def gen_case(rng):
     # utf-8-sig (what `-e` auto-detection reports for a list saved as "UTF-8 with BOM"): the trainer's side of such a ruleset is judged here; the other tools
     # cannot load it (recorded assumption), so the encoding appears in C06 only
-    case = trained.gen_train_case(rng, encodings=['utf-8', 'utf-8', 'utf-8', 'latin-1', 'cp1251', 'cp1252', 'ascii', 'iso-8859-7', 'utf-8-sig'],
+    case = trained.gen_train_case(rng, encodings=['utf-8', 'utf-8', 'utf-8', 'latin-1', 'cp1251', 'cp1252', 'ascii', 'iso-8859-7', 'utf-8-sig', 'cp1254', 'cp1254'],
                                   coverages=(0, 0.1, 0.5, 0.6, 0.999, 1, 1.0, 0.3), max_len_choices=(21, 21, 9))
     cls = rng.random()
     if cls < 0.15:      # all counts tie
@@ -57,6 +57,12 @@ def compare_counter(run, case, what, rows, counter):
     return True
 
 def check_files(run, case, path, res):
+    # the model is the model of THE LIST: every password the reader accepted (first pass) is segmented exactly once in the second pass
+    seg_pw, acc_pw = Counter(pw for pw, _ in res.segmented), Counter(res.passes[0]['yielded'])
+    if seg_pw != acc_pw:
+        miss = list((acc_pw - seg_pw).elements())[:4]; extra = list((seg_pw - acc_pw).elements())[:4]
+        run.violation(f'the grammar was not built from the passwords of the list: {sum((acc_pw - seg_pw).values())} accepted password(s) never segmented {miss}, '
+                      f'{sum((seg_pw - acc_pw).values())} segmented but not in the list {extra} (N used for the Markov pseudo-count: {res.passes[0]["num_passwords"]})', case); return False
     t = trained.tally(res.segmented)
     disk = oracles.Disk(path)
     enc = disk.encoding
